@@ -200,7 +200,8 @@ def gen_expr(ctx: Any, pe: Any, depth: int, prof: str) -> Any:
     if ctx.choose(2, 'order') == 0:
         return pe.modus_ponens(major, minor)
     # the instantiated proof as the right premise (something lies below it on the stack)
-    inner = pe.dynamic_inst(pe.prop1(), _delta(ctx, prof))
+    # (instantiate keeps an empty substitution as an instruction, dynamic_inst drops it: both forms)
+    inner = (pe.dynamic_inst if ctx.choose(2, 'instantiation form') == 0 else pe.instantiate)(pe.prop1(), _delta(ctx, prof))
     major2 = pe.instantiate(pe.prop1(), {0: inner.conc, 1: P.MetaVar(2)})
     return pe.modus_ponens(major2, inner)
 
